@@ -440,7 +440,11 @@ class Translator:
             if len(hits) != 1:
                 raise Untranslatable(f"{self.where}: expected exactly one class {cls}, found {len(hits)}")
             body = hits[0].body
-        hits = [n for n in body if isinstance(n, ast.FunctionDef) and n.name == parts[-1]]
+        def is_overload(fn):
+            return any(dotted(d) in ("overload", "t.overload", "typing.overload") for d in fn.decorator_list)
+
+        # `@overload` stubs only declare types; the one undecorated definition is the function
+        hits = [n for n in body if isinstance(n, ast.FunctionDef) and n.name == parts[-1] and not is_overload(n)]
         if len(hits) != 1:
             raise Untranslatable(f"{self.where}: expected exactly one definition, found {len(hits)}")
         return hits[0], len(parts) > 1
@@ -924,6 +928,8 @@ class Translator:
             args = matcher(n)
             if args is not None:
                 return fn, args
+        if isinstance(n.func, ast.Attribute) and n.func.attr in ("startswith", "endswith") and len(n.args) == 1 and isinstance(n.args[0], ast.Tuple):
+            return None  # expanded by `call`
         if n.keywords:
             self.bad(n, "keyword arguments")
         f = n.func
@@ -959,6 +965,14 @@ class Translator:
         self.bad(n, "unsupported call")
 
     def call(self, n, env, bound=None) -> E:
+        f = n.func
+        if isinstance(f, ast.Attribute) and f.attr in ("startswith", "endswith") and len(n.args) == 1 and not n.keywords and isinstance(n.args[0], ast.Tuple) and n.args[0].elts:
+            # s.startswith((a, b)) = s.startswith(a) or s.startswith(b)   (the receiver is pure)
+            alts = [ast.Call(func=f, args=[x], keywords=[]) for x in n.args[0].elts]
+            new = alts[0] if len(alts) == 1 else ast.BoolOp(op=ast.Or(), values=alts)
+            ast.copy_location(new, n)
+            ast.fix_missing_locations(new)
+            return self.expr(new, env)
         res = self.resolve_call(n, env)
         if res is None:
             return self.builtin(n, env)
